@@ -98,7 +98,7 @@ def search(ctx: Ctx) -> Result:
 
 
 SPEC = PropSpec(
-    prop='C01',
+    prop='C01', extra_props=['C01Decider'],
     translators=['patternrules', 'runwalk', 'deciderfrag'],
     run=run,
     search=search,
